@@ -28,3 +28,5 @@ func readJSON(path string, v any) {
 		core.Infra("replay: %v", err)
 	}
 }
+
+func os_stderr() *os.File { return os.Stderr }
